@@ -57,6 +57,136 @@ def cases(tier, seed, phase):
         yield mk
 
 
+def rnums(recipients):
+    import re
+    out = []
+    for a in recipients:
+        m = re.match(r'r(\d+)x(\d+)@', a)
+        out.append(int(m.group(1)) * 10 + int(m.group(2)) if m else 999)
+    return out
+
+
+def dots(nums):
+    return '.'.join(str(n) for n in nums) or '-'
+
+
+def _group(items):
+    out = {}
+    for it in items:
+        out.setdefault(it[0], []).append(tuple(it[1:]))
+    return out
+
+
+def ledger_monitors(R, store, pools):
+    """C01 / C03 / C13 stated over what the relay, the bounce factory and the storage saw in a scheduler run (implementation
+    observables only). Calm runs only: outside (known finding of C12) enqueue() re-delivers by design of the defect."""
+    hits = []
+    if R.first_racing is not None:
+        return hits
+    settled, verdict, permfailed = {}, {}, {}
+    for ev in R.events:
+        if ev[0] == 'saw':
+            again = sorted(set(ev[2]) & settled.get(ev[1], set()))
+            if again:
+                hits.append(hit('c03.settled-recipient-reattempted.sched', 'a delivery attempt includes a recipient the relay had already reported delivered or failed for good',
+                                observed={'message': ev[1], 'recipients': again, 'attempt': ev[2]}))
+                break
+        else:
+            for num, v in ev[2].items():
+                verdict[num] = v
+                if v[0] in 'op':
+                    settled.setdefault(ev[1], set()).add(num)
+                if v[0] == 'p':
+                    permfailed[num] = int(v[1:])
+    bounced = {}
+    for k, reply, nums, too_many in R.bounce_calls:
+        if k % 5 == 4:
+            hits.append(hit('c13.bounce-for-null-sender.sched', 'a bounce was asked for a message with an empty sender', observed={'message': k, 'reply': reply, 'recipients': nums}))
+            break
+        for num in nums:
+            ok = (permfailed.get(num) == reply and not too_many) or (too_many and k in R.gave_up and verdict.get(num, '') == 't%d' % reply)
+            if not ok:
+                hits.append(hit('c13.bounce-names-wrong-recipient.sched', 'a bounce names a recipient that did not fail with the reply it quotes',
+                                observed={'message': k, 'reply': reply, 'too_many': too_many, 'recipient': num, 'its verdict': verdict.get(num)}))
+                return hits
+            if num in bounced:
+                hits.append(hit('c13.recipient-bounced-twice.sched', 'a recipient is named in two bounces', observed={'message': k, 'recipient': num}))
+                return hits
+            bounced[num] = reply
+    if pools is None and not R.inflight:
+        # end of the run, unbounded pools, nothing in flight or held: everybody accepted is delivered, failed for good (and bounced when
+        # the sender is not empty), or still in storage
+        for k, id in sorted(R.idk.items()):
+            stored = rnums(store.env_db[id].recipients) if id in store.meta_db and id in store.env_db else None
+            for num in R.recipients_of.get(k, []):
+                v = verdict.get(num, '')
+                if v == 'o':
+                    continue
+                failed = v.startswith('p') or (k in R.gave_up and stored is None)
+                if failed:
+                    if k % 5 != 4 and num not in bounced:
+                        hits.append(hit('c01.failed-recipient-not-bounced.sched', 'a recipient failed for good and no bounce names it (non-empty sender)',
+                                        observed={'message': k, 'recipient': num, 'verdict': v}))
+                        return hits
+                elif stored is None or num not in stored:
+                    hits.append(hit('c01.recipient-lost.sched', 'an accepted recipient is neither delivered, nor failed for good, nor in storage any more',
+                                    observed={'message': k, 'recipient': num, 'last verdict': v, 'stored': stored}))
+                    return hits
+    return hits
+
+
+def compare_composed(R, model, qpre, qchunks):
+    """The same run against the composed queue machine (Model/QueueM.lean): every label enabled, the scheduler state AND what the
+    storage holds for every message (recipients, attempt counter) equal at every observation; at the end the recipients and attempt
+    number of every hand-off per message, the bounces asked for per message, and who was reported delivered."""
+    ks = sorted(set(R.idk) | set(k for k, _, _ in R.handed))
+    text = '/'.join(';'.join(c) or '-' for c in qchunks)
+    m = model.ask('qm run 1 %s %s %s' % (','.join(str(k) for k in ks) or '-', ';'.join(qpre) or '-', text))
+    parts = m.split(' || ')
+    mstates = parts[0].split(' / ')
+    for i, (ls, snap, qls, qsnap) in enumerate(R.chunks):
+        if R.first_racing is not None and i >= R.first_racing:
+            # not a calm run from here on (known finding of C12): enqueue() will hand over an envelope object of its own for a
+            # message the timetable has dealt with meanwhile; the composed machine's theorems do not cover it and what happens
+            # depends on the backend (the message may be gone from storage by then). Model/Sched.lean is still compared above.
+            return None
+        ms = mstates[i] if i < len(mstates) else 'missing'
+        want = snap + ' m=' + qsnap
+        if ms != want:
+            return {'op': 'qm run', 'chunk': i, 'action': R.actions[i] if i < len(R.actions) else None, 'labels': ';'.join(qls)[:300],
+                    'impl': want, 'model': ms, 'trace': text[:1500]}
+    if len(parts) < 2:
+        return {'op': 'qm run', 'model': m[:300], 'trace': text[:1500]}
+    fields = dict(f.split('=', 1) for f in parts[1].split(' '))
+
+    def parse(s, n):
+        return [] if s == '-' else [tuple(x.split(':')) for x in s.split(',')]
+    # Outside the calm environment (a message announced while enqueue() still holds it: the known finding of C12) enqueue() hands
+    # over the envelope object it was given; what that object holds by then depends on the backend (DictStorage stores the very
+    # object and strikes delivered recipients from it). The theorems do not cover those runs; such messages are left out here.
+    calm_only = lambda g: dict((k, v) for k, v in g.items() if k not in R.racing)
+    mh = calm_only(_group([(int(a), b, int(c)) for a, b, c in parse(fields['handed'], 3)]))
+    ih = calm_only(_group([(k, dots(r), a) for k, r, a in R.handed]))
+    if mh != ih:
+        return {'op': 'qm run', 'what': 'hand-offs per message (recipients, attempts argument)', 'impl': str(ih)[:400], 'model': str(mh)[:400], 'trace': text[:1500]}
+    rs = _group([(k, dots(r), a) for k, r, a in R.relay_saw])
+    ih_all = _group([(k, dots(r), a) for k, r, a in R.handed])
+    for k, l in rs.items():
+        if ih_all.get(k, [])[:len(l)] != l:
+            return {'op': 'qm run', 'what': 'what the relay was given differs from what was handed off', 'message': k, 'impl': str(l)[:300], 'model': str(ih_all.get(k))[:300],
+                    'trace': text[:1500]}
+    mb = calm_only(_group([(int(a), int(b), c, d == '1') for a, b, c, d in parse(fields['bounces'], 4)]))
+    ib = calm_only(_group([(k, r, dots(n), t) for k, r, n, t in R.bounce_calls]))
+    if mb != ib:
+        return {'op': 'qm run', 'what': 'bounces asked for per message (reply, recipients, too-many-retries)', 'impl': str(ib)[:400], 'model': str(mb)[:400],
+                'trace': text[:1500]}
+    md = dict((int(a), b) for a, b, c in parse(fields['ledger'], 3))
+    for k in ks:
+        if k not in R.racing and md.get(k, '-') != dots(R.reported.get(k, [])):
+            return {'op': 'qm run', 'what': 'recipients reported delivered', 'message': k, 'impl': dots(R.reported.get(k, [])), 'model': md.get(k), 'trace': text[:1500]}
+    return None
+
+
 class VClock(object):
     def __init__(self):
         self.now = BASE
@@ -109,7 +239,17 @@ class Run(object):
     def __init__(self, case):
         self.case = case
         self.labels = []
+        self.qlabels = []        # the same trace with the labels of the composed machine (Model/QueueM.lean): recipients, full outcomes
         self.chunks = []
+        self.handed = []         # (k, [recipient numbers], attempts) of every hand-off (spawn of Queue._attempt)
+        self.relay_saw = []      # the same as the relay's attempt() saw it when the attempt started (later, when the relay pool was full)
+        self.bounce_calls = []   # (k, reply id, [recipient numbers], too_many) of every call of the bounce factory
+        self.reported = {}       # k -> recipient numbers the relay reported delivered, in order
+        self.first_racing = None
+        self.events = []         # ('saw', k, [recipient numbers]) when the relay starts an attempt, ('out', k, {number: verdict}) when it answers
+        self.gave_up = set()     # k: the backoff function answered None
+        self.recipients_of = {}  # k -> recipient numbers the message was accepted with
+        self.incr_pending = set()   # k: increment_attempts done, the retry label not logged yet
         self.actions = []
         self.kid = {}            # store id -> k
         self.idk = {}            # k -> store id
@@ -138,8 +278,9 @@ class Run(object):
         self.racing = set()
         self.double_attempts = []
 
-    def log(self, l):
+    def log(self, l, q=None):
         self.labels.append(l)
+        self.qlabels.append(q if q is not None else l)
         self.nlabels += 1
 
     def rel(self, t):
@@ -203,7 +344,7 @@ def run_case(case, model):
             k = env.k
             R.kid[id] = k
             R.idk[k] = id
-            R.log('w%d:%d' % (k, R.rel(ts)))
+            R.log('w%d:%d' % (k, R.rel(ts)), 'w%d:%d:%s:%d' % (k, R.rel(ts), dots(rnums(env.recipients)), 1 if env.sender else 0))
             R.orig_ts[k] = ts
             R.written_pending.add(k)
             R.last_ts_set[k] = R.nlabels
@@ -239,6 +380,7 @@ def run_case(case, model):
             r = orig_set_ts(id, ts)
             # the first half of _retry_later is over: the due time it chose is in storage (the message is still active)
             R.log('r%d:%d' % (k, R.rel(ts)))
+            R.incr_pending.discard(k)
             R.stamped.add(gevent.getcurrent())
             R.last_ts_set[k] = R.nlabels
             R.flushed_since[k] = False
@@ -247,11 +389,20 @@ def run_case(case, model):
                 h[0].wait()
                 R.ts_waiting.discard(k)
             return r
+        orig_incr = store.increment_attempts
+
+        def increment_attempts(id):
+            r = orig_incr(id)
+            R.incr_pending.add(R.kid.get(id, 99))
+            return r
+        store.increment_attempts = increment_attempts
         store.write, store.get, store.set_timestamp = write, get, set_timestamp
 
         class FakeRelay(Relay):
             def attempt(self, env, attempts):
-                k = int(env.sender[1:].split('@')[0])
+                k = env.k
+                R.relay_saw.append((k, rnums(env.recipients), attempts))
+                R.events.append(('saw', k, rnums(env.recipients)))
                 id = R.idk.get(k)
                 ts = store.meta_db[id]['timestamp'] if id in store.meta_db else None
                 excused = R.flushed_since.get(k, False)
@@ -263,28 +414,63 @@ def run_case(case, model):
                 gate.wait()
                 del R.inflight[k]
                 oc = box['outcome']
-                R.log('D%d:%d' % (k, 1 if oc in ('ok', 'perm') else 0))
-                if oc == 'ok':
-                    return None
-                if oc == 'temp':
-                    raise TransientRelayError('try later', Reply('450', '4.0.0 later'))
-                if oc == 'perm':
-                    raise PermanentRelayError('no', Reply('550', '5.0.0 no'))
+                nums = rnums(env.recipients)
+                n = len(nums)
+                if oc in ('ok', 'temp', 'perm', 'boom'):
+                    R.events.append(('out', k, dict((num, {'ok': 'o', 'temp': 't1', 'perm': 'p2', 'boom': 't9'}[oc]) for num in nums)))
+                    R.log('D%d:%d' % (k, 1 if oc in ('ok', 'perm') else 0), 'D%d:%s' % (k, {'ok': 'S', 'temp': 'T1', 'perm': 'P2', 'boom': 'X9'}[oc]))
+                    if oc == 'ok':
+                        R.reported.setdefault(k, []).extend(nums)
+                        return None
+                    if oc == 'temp':
+                        raise TransientRelayError('try later', Reply('450', '4.0.0 later r1'))
+                    if oc == 'perm':
+                        raise PermanentRelayError('no', Reply('550', '5.0.0 no r2'))
+                    raise RuntimeError('boom9')
+                # per-recipient results: a vector of o (delivered) / p<r> (failed for good with reply r) / t<r> (try later)
                 if oc == 'mixed':
-                    # first recipient delivered, the others try later
-                    res = {}
-                    for i, rcpt in enumerate(env.recipients):
-                        res[rcpt] = Reply('250', 'ok') if i == 0 and len(env.recipients) > 1 else TransientRelayError('later', Reply('450', '4.0.0 later'))
-                    return res
+                    vec = ['o' if i == 0 and n > 1 else 't1' for i in range(n)]      # first recipient delivered, the others try later
+                    form = 'M'
+                elif oc == 'mixedp':
+                    vec = ['p2' if i == 0 else 't1' for i in range(n)]
+                    form = 'M'
+                else:
+                    vec, form = box['vec'][:n], box['form']
+
+                def value(v):
+                    if v == 'o':
+                        return None if k % 2 else Reply('250', '2.0.0 ok')
+                    if v[0] == 'p':
+                        return PermanentRelayError('no', Reply('550', '5.0.0 no r%s' % v[1:]))
+                    return TransientRelayError('later', Reply('450', '4.0.0 later r%s' % v[1:]))
+                pairs = list(zip(env.recipients, nums, vec))
+                if form == 'Mrev':
+                    pairs.reverse()          # the mapping's own order need not be the envelope's
+                okflag = 0 if any(v[0] == 't' for v in vec) else 1
+                R.events.append(('out', k, dict((num, v) for _, num, v in pairs)))
+                R.reported.setdefault(k, []).extend(num for _, num, v in pairs if v == 'o')
+                if form == 'Q':
+                    R.log('D%d:%d' % (k, okflag), 'D%d:Q%s' % (k, ','.join(vec)))
+                    return [value(v) for v in vec]
+                R.log('D%d:%d' % (k, okflag), 'D%d:M%s' % (k, ','.join('%d=%s' % (num, v) for _, num, v in pairs)))
+                return dict((rcpt, value(v)) for rcpt, _, v in pairs)
         relay = FakeRelay()
         table = case['backoff']
 
         def backoff(env, attempts):
             w = table[min(attempts - 1, len(table) - 1)] if attempts >= 1 else table[0]
             R.backoff_of[gevent.getcurrent()] = w
+            if w is None:
+                R.gave_up.add(getattr(env, 'k', -1))
             return w
         pools = case.get('pools')
-        q = Queue(store, relay, backoff=backoff, bounce_factory=lambda env, reply: None,
+        def bounce_factory(env, reply):
+            import re as _re
+            nums = rnums(env.recipients)
+            m = _re.search(r'(?:r|boom)(\d+)', reply.message)
+            R.bounce_calls.append((nums[0] // 10 if nums else -1, int(m.group(1)) if m else -1, nums, reply.message.endswith('(Too many retries)')))
+            return None
+        q = Queue(store, relay, backoff=backoff, bounce_factory=bounce_factory,
                   store_pool=pools[0] if pools else None, relay_pool=pools[1] if pools else None)
         q.wake = make_vevent(clock)
         # ---- instrumentation (instance attributes only)
@@ -340,6 +526,7 @@ def run_case(case, model):
                 return orig_spawn(which, deq, *args, **kw)
             if func == orig_attempt:
                 k = R.kid.get(args[0], 99)
+                R.handed.append((k, rnums(args[1].recipients), args[2]))
                 cause = R.cause_of.get(gevent.getcurrent())
                 if cause is None:
                     # enqueue's own hand-off (not a _dequeue task)
@@ -364,6 +551,7 @@ def run_case(case, model):
                     R.log('Q%d' % k)            # the second half: released and put into the timetable
                 else:
                     R.log('r%d:-' % k)          # the backoff function gave up
+                    R.incr_pending.discard(k)
                     R.last_ts_set[k] = R.nlabels
                     R.flushed_since[k] = False
 
@@ -378,6 +566,8 @@ def run_case(case, model):
                 R.log('n%d:%d' % (kk, R.rel(ts)))
                 if kk in R.written_pending or R.deq_pending.get(kk, 0) > 0:
                     R.racing.add(kk)
+                    if R.first_racing is None:
+                        R.first_racing = len(R.chunks)       # the observation in which the environment stops being calm
             return orig_addq(entry)
 
         def flush():
@@ -391,9 +581,11 @@ def run_case(case, model):
         q._pool_spawn, q._dequeue, q.flush = pool_spawn, orig_dequeue, flush
 
         def make_env(k):
-            env = Envelope('s%d@example.com' % k, ['a%d@example.com' % k, 'b%d@example.com' % k])
+            # 1..3 recipients (numbered 10k+i); every fifth message has the null sender (never bounced)
+            env = Envelope('' if k % 5 == 4 else 's%d@example.com' % k, ['r%dx%d@example.com' % (k, i) for i in range([2, 3, 1, 2][k % 4])])
             env.parse(b'Subject: m\r\n\r\nbody\r\n')
             env.k = k
+            R.recipients_of[k] = rnums(env.recipients)
             return env
 
         def settle():
@@ -415,10 +607,20 @@ def run_case(case, model):
             asleep = '-' if not w.waiting else ('inf' if w.deadline is None else str(R.rel(w.deadline)))
             return 'now=%d q=%s ids=%s act=%s st=%s wake=%d asleep=%s' % (R.rel(clock.now), qd, ids, act, st, 1 if w.is_set() else 0, asleep)
 
+        def qsnapshot():
+            # what the storage holds for every message: recipients still to be delivered to, attempt counter. _retry_later calls
+            # increment_attempts first; the label of the model's retry step (which counts the attempt AND takes the backoff's answer) is
+            # logged when the due time is written, or when the give-up branch has finished — both can be later (a held
+            # set_timestamp, a removal waiting for a slot of a bounded store pool). In between the counter is shown as it was.
+            held = R.incr_pending
+            return ','.join('%d:%s:%d' % (k, dots(rnums(store.env_db[id].recipients)), store.meta_db[id]['attempts'] - (1 if k in held else 0))
+                            for k, id in sorted(R.idk.items()) if id in store.meta_db) or '-'
+
         def observe(action):
             settle()
             R.actions.append(action)
-            R.chunks.append((R.labels, snapshot()))
+            R.chunks.append((R.labels, snapshot(), R.qlabels, qsnapshot()))
+            R.qlabels = []
             if os.environ.get('VERIF_C12_TRACE'):
                 import sys
                 sys.stderr.write('%-22s %-30s %s\n' % (action, ','.join(R.labels), snapshot()))
@@ -469,6 +671,7 @@ def run_case(case, model):
             R.kid[id] = k
             R.idk[k] = id
             R.labels.append('PRE%d:%d' % (k, 3))
+            R.qlabels.append('PRE%d:%d:%s:%d' % (k, 3, dots(rnums(env.recipients)), 1 if env.sender else 0))
         q.start()
         gevent.spawn(lambda: None)
         observe(['start'])
@@ -497,6 +700,9 @@ def run_case(case, model):
             k = sorted(R.inflight)[rng.randrange(len(R.inflight))] if case['script'] is None else sorted(R.inflight)[0]
             gate, box = R.inflight[k]
             box['outcome'] = oc
+            if oc == 'vec':
+                box['vec'] = [rng.choice(['o', 'o', 'p2', 'p4', 't1', 't1', 't3']) for _ in range(3)]
+                box['form'] = rng.choice(['M', 'Mrev', 'Q'])
             gate.set()
             observe([oc, k])
             return True
@@ -569,7 +775,7 @@ def run_case(case, model):
             for a in case['script']:
                 if a == 'enq':
                     act_enq()
-                elif a in ('ok', 'temp', 'perm', 'mixed'):
+                elif a in ('ok', 'temp', 'perm', 'mixed', 'mixedp', 'boom', 'vec'):
                     act_outcome(a)
                 elif a == 'tick':
                     act_tick()
@@ -593,7 +799,7 @@ def run_case(case, model):
                 if r < 0.18:
                     act_enq() or act_tick()
                 elif r < 0.50:
-                    act_outcome(rng.choice(['ok', 'temp', 'temp', 'temp', 'mixed', 'perm'])) or act_tick()
+                    act_outcome(rng.choice(['ok', 'temp', 'temp', 'temp', 'mixed', 'perm', 'vec', 'vec', 'mixedp', 'boom'])) or act_tick()
                 elif r < 0.70:
                     act_tick(rng.random() < 0.3)
                 elif r < 0.80:
@@ -625,12 +831,16 @@ def run_case(case, model):
         if R.double_attempts:
             hits.append(hit('c03.second-attempt-while-one-is-in-flight', 'a second delivery attempt of a message was started while one was still in flight',
                             observed={'message': R.double_attempts[0][0], 'at': R.double_attempts[0][1]}))
+        hits.extend(ledger_monitors(R, store, pools))
         # ---- model replay
         pre = []
         chunks = []
-        for ls, snap in R.chunks:
+        qpre, qchunks = [], []
+        for ls, snap, qls, qsnap in R.chunks:
             chunks.append([l for l in ls if not l.startswith('PRE')])
             pre += [l for l in ls if l.startswith('PRE')]
+            qchunks.append([l for l in qls if not l.startswith('PRE')])
+            qpre += ['P' + l[3:] for l in qls if l.startswith('PRE')]
         # preloaded messages: written before the model starts (the model sees them through announce, as load() reports them)
         prelabels = []
         for p in pre:
@@ -641,7 +851,7 @@ def run_case(case, model):
         body = m.split(' || ')[0]
         mstates = body.split(' / ')
         mismatch = None
-        for i, (ls, snap) in enumerate(R.chunks):
+        for i, (ls, snap, _qls, _qsnap) in enumerate(R.chunks):
             ms = mstates[i] if i < len(mstates) else 'missing'
             if snap is None:
                 if ms.startswith('disabled') or ms.startswith('bad-label') or ms == 'missing':
@@ -652,8 +862,16 @@ def run_case(case, model):
                 mismatch = {'op': 'sched run', 'chunk': i, 'action': R.actions[i] if i < len(R.actions) else None, 'labels': ','.join(ls)[:300],
                             'impl': snap, 'model': ms, 'trace': text[:1500]}
                 break
+        if mismatch is None:
+            mismatch = compare_composed(R, model, qpre, qchunks)
         tags = ['pools=%s' % ('none' if not pools else 'bounded'), 'preload=%d' % case.get('preload', 0), 'scripted' if case['script'] is not None else 'random']
-        alll = [l for ls, _ in R.chunks for l in ls]
+        alll = [l for ls, _, _, _ in R.chunks for l in ls]
+        qall = [l for _, _, qls, _ in R.chunks for l in qls]
+        for pfx, name in (('M', 'outcome:mapping'), ('Q', 'outcome:sequence'), ('X', 'outcome:exception'), ('P', 'outcome:permanent'), ('T', 'outcome:transient'), ('S', 'outcome:success')):
+            if any(l.startswith('D') and l.split(':', 1)[1].startswith(pfx) for l in qall):
+                tags.append(name)
+        if R.bounce_calls:
+            tags.append('bounce-asked')
         for pfx, name in (('r', 'retry'), ('f', 'flush'), ('n', 'announce'), ('R', 'remove'), ('d', 'dequeue'), ('Q', 'requeue')):
             if any(l.startswith(pfx) for l in alll):
                 tags.append('label:' + name)
